@@ -1,6 +1,8 @@
 SPECIFICATION Spec
 CONSTANT Tier = "thorough"
 INVARIANT Inv_C12_Balanced
+INVARIANT Inv_C12_NoStale
+INVARIANT Inv_C12_LaterWins
 INVARIANT Inv_C12_NoDup
 INVARIANT Inv_C12_OneOwner
 INVARIANT Inv_C12_Resolves
